@@ -291,6 +291,12 @@ func c10Specs(thorough bool) []*gen.ProgSpec {
 			for _, durs := range durTuples(n) {
 				for _, media := range []string{"audio", "video"} {
 					specs = append(specs, &gen.ProgSpec{Tracks: []gen.ProgTrack{mkTrack(media, 1000, n, ch, durs, len(ch)%4, 0, false)}})
+					// the same with a track header that understates the duration (half, zero)
+					for short := 1; short <= 2; short++ {
+						tr := mkTrack(media, 1000, n, ch, durs, len(ch)%4, 0, false)
+						tr.TkhdShort = short
+						specs = append(specs, &gen.ProgSpec{Tracks: []gen.ProgTrack{tr}})
+					}
 				}
 			}
 		})
@@ -333,6 +339,11 @@ func c10Specs(thorough bool) []*gen.ProgSpec {
 									a := mkTrack("audio", ats, na, cha, ad, (len(ord)+mi)%4, 0, false)
 									a.Edts = false
 									specs = append(specs, &gen.ProgSpec{Tracks: []gen.ProgTrack{v, a}, ChunkOrder: ord, MdatFirst: mi == 1, MdatLarge: len(ord)%2 == 1})
+									if mi == 0 {
+										a2 := a
+										a2.TkhdShort = 1 + len(ord)%2
+										specs = append(specs, &gen.ProgSpec{Tracks: []gen.ProgTrack{v, a2}, ChunkOrder: ord})
+									}
 								}
 							}
 						}
@@ -351,7 +362,7 @@ func runC10(c *vf.Ctx) {
 	} else {
 		c.SetBudget(4 * 60 * 1e9)
 	}
-	c.Rule = "generated progressive files: single video track with stss (all chunkings x every sync subset containing sample 1 x duration tuples over {1,2,3} x ctts/sdtp/co64/edts/mdat-first/64-bit-mdat-header variants), single audio / video track without stss, video+audio (all chunkings of both x every merge order of the chunks in mdat x sync subsets; audio timescale 1000 and 600) ; each file is cropped in-process by the tool's own cropMP4 (overlay-injected driver) at EVERY millisecond 1..total+2. A case = (file, ms). Only successful crops are judged; tool errors/panics are tallied."
+	c.Rule = "generated progressive files: single video track with stss (all chunkings x every sync subset containing sample 1 x duration tuples over {1,2,3} x ctts/sdtp/co64/edts/mdat-first/64-bit-mdat-header variants), single audio / video track without stss (also with a track header duration of half the media duration and of zero), video+audio (all chunkings of both x every merge order of the chunks in mdat x sync subsets; audio timescale 1000 and 600) ; each file is cropped in-process by the tool's own cropMP4 (overlay-injected driver) at EVERY millisecond 1..total+2. A case = (file, ms). Only successful crops are judged; tool errors/panics are tallied."
 	c.Bound = "single track N <= 5 (quick) / 6 (thorough) samples; video+audio N <= 3 / 4 each, audio timescale 1000 and 600 (reference track always 1000)"
 	specs := c10Specs(thorough)
 	c.Set("files", len(specs))
